@@ -14,6 +14,25 @@ import (
 	"fmt"
 )
 
+type hashFact struct {
+	alg     string
+	in, out []*Term
+}
+
+// addAxiom adds a fact that is true in every model (no feasibility check).
+func (ex *Exec) addAxiom(t *Term) {
+	if t.IsConst() {
+		return
+	}
+	ex.pc = append(ex.pc, t)
+	ex.solver.Assert(t)
+	if ex.model != nil {
+		if v, ok := evalTerm(t, ex.model, map[*Term]uint64{}); !ok || v == 0 {
+			ex.model = nil
+		}
+	}
+}
+
 type hashState struct {
 	alg  string
 	size int
@@ -60,6 +79,13 @@ func (ex *Exec) digest(alg string, size int, in []*Term) []*Term {
 			for i, c := range d {
 				out[i] = byteConst(c)
 			}
+			// consistency with uninterpreted applications of the same arity
+			for _, f := range ex.hashApps {
+				if f.alg == alg && len(f.in) == len(in) {
+					ex.addAxiom(mkOr(mkNot(ex.strEq(f.in, in)), ex.strEq(f.out, out)))
+				}
+			}
+			ex.hashFacts = append(ex.hashFacts, hashFact{alg: alg, in: in, out: out})
 			return out
 		}
 	}
@@ -67,6 +93,12 @@ func (ex *Exec) digest(alg string, size int, in []*Term) []*Term {
 	for i := range out {
 		out[i] = mkApp(fmt.Sprintf("%s_n%d_o%d", alg, len(in), i), 8, in...)
 	}
+	for _, f := range ex.hashFacts {
+		if f.alg == alg && len(f.in) == len(in) {
+			ex.addAxiom(mkOr(mkNot(ex.strEq(f.in, in)), ex.strEq(f.out, out)))
+		}
+	}
+	ex.hashApps = append(ex.hashApps, hashFact{alg: alg, in: in, out: out})
 	return out
 }
 
@@ -250,5 +282,52 @@ func init() {
 			}
 			return Tuple{ex.mkAEAD(no.state.(*aeadState).key), Iface{}}
 		})
+	})
+}
+
+// Text forms of hashes/CIDs over symbolic bytes feed only messages and URLs;
+// base58/base32 big-number arithmetic on symbolic bytes is replaced by an
+// injective hex model. Concrete values go through the real code.
+func init() {
+	extraIntrinsics = append(extraIntrinsics, func(p *Program) {
+		hexModel := func(prefix string, bs []*Term) Value {
+			out := strBytes(prefix)
+			hex := func(n *Term) *Term {
+				return mkIte(mkCmp(OpULt, n, byteConst(10)), mkBin(OpAdd, n, byteConst('0')), mkBin(OpAdd, n, byteConst('a'-10)))
+			}
+			for _, b := range bs {
+				out = append(out, hex(mkBin(OpLShr, b, byteConst(4))), hex(mkBin(OpBAnd, b, byteConst(15))))
+			}
+			return mkStr(out)
+		}
+		symbolicOnly := func(name, prefix string) {
+			p.reg(name, func(ex *Exec, fr *Frame, args []Value) Value {
+				var bs []*Term
+				switch v := args[0].(type) {
+				case []Value:
+					bs = termsOf(v)
+				case string, SymStr:
+					bs = strBytes(v)
+				case Struct: // cid.Cid{str}
+					bs = strBytes(v[0])
+				default:
+					ex.unsupported("%s on %T", name, args[0])
+				}
+				conc := true
+				for _, b := range bs {
+					if !b.IsConst() {
+						conc = false
+					}
+				}
+				if conc {
+					return ex.runReal(fr, name, args)
+				}
+				return hexModel(prefix, bs)
+			})
+		}
+		symbolicOnly("(github.com/multiformats/go-multihash.Multihash).B58String", "mh58-")
+		symbolicOnly("(github.com/multiformats/go-multihash.Multihash).HexString", "")
+		symbolicOnly("(github.com/multiformats/go-multihash.Multihash).String", "")
+		symbolicOnly("(github.com/ipfs/go-cid.Cid).String", "cid-")
 	})
 }
